@@ -299,8 +299,16 @@ impl<F: Write + Seek> MiniAllocator<F> {
         // Add a new mini sector to the end of the mini stream and return it.
         // The mini stream grows first: if that fails, the MiniFAT must not
         // already describe a mini sector that the mini stream does not have.
+        // It need not grow at all when it already reaches past the new mini
+        // sector: a file written elsewhere can end in free mini sectors, whose
+        // MiniFAT entries were trimmed when the file was opened.
         let new_mini_sector = self.minifat.len() as u32;
-        self.append_mini_sector()?;
+        let mini_stream_len = self.directory.root_dir_entry().stream_len;
+        if (new_mini_sector as u64 + 1) * consts::MINI_SECTOR_LEN as u64
+            > mini_stream_len
+        {
+            self.append_mini_sector()?;
+        }
         self.set_minifat(new_mini_sector, value)?;
         Ok(new_mini_sector)
     }
